@@ -104,3 +104,108 @@ def check_C23(tier, seed):
                        "partition) on Sem's rows and on the real engine's rows. evaluations = cases judged; distinct non-trivial = cases where the transformation actually changed the rows")
     res.notes.update({"cases_by_kind": bykind, "skipped": skipped})
     return res
+
+# ------------------------------------------------------------------ C11
+def check_C11(tier, seed):
+    from props_engine import judge
+    res = Result("C11", tier, seed, "model_checking")
+    wd = workdir("C11")
+    insts = universe.semantic_universe(tier, seed + 1100)
+    obs = observe(insts, wd, "ir", seed)
+    ji, jo = [], []; rejected = 0
+    for inst, o in zip(insts, obs):
+        if o["compile"]["t"] == "panic":
+            res.violation(f"frontend panicked: {o['compile']['err'][:200]} for {inst['text']!r}", text=o["compile"]["err"], tags=props.inst_tags(inst), replay=props.replay_case(inst, o)); continue
+        if o["compile"]["t"] != "ok": rejected += 1; continue
+        ji.append({k: inst[k] for k in ("id", "schema", "q")}); jo.append({"id": inst["id"], "ir": o["ir"]})
+    verdicts = judge(res, "JudgeIR", ji, jo, wd, "ir")
+    byid = {i["id"]: i for i in insts}
+    shapes = set(); nontrivial = 0
+    for x, o in zip(ji, jo):
+        v = verdicts[x["id"]]; inst = byid[x["id"]]; ir = o["ir"]
+        shape = json.dumps([[c["root"], c["parentFold"], [(it["kind"], it["from"], it["optional"], it["depth"], len(it["imported"]), len(it["post"])) for it in c["items"]],
+                             [len(vx["filters"]) for vx in c["vertices"]]] for c in ir["comps"]])
+        if shape not in shapes:
+            shapes.add(shape)
+            if len(ir["vids"]) >= 2: nontrivial += 1
+        if "C11.bad" in v:
+            broken = [c for c in json.loads(tla_unquote(v["C11.bad"])) if c]
+            res.violation(f"compiled query breaks: {'; '.join(broken)} - for query {inst['text']!r}", text="ir " + "; ".join(broken), tags=props.inst_tags(inst), replay=props.replay_case(inst, None, ir=ir, broken=broken))
+        elif len(ir["comps"]) >= 2 and any(it["imported"] for c in ir["comps"] for it in c["items"]):
+            res.sample({"query": inst["text"], "components": [{"root": c["root"], "vertices": [vx["vid"] for vx in c["vertices"]], "edges": [(it["kind"], it["eid"], it["from"], it["to"]) for it in c["items"]],
+                        "imported": [[(t["k"], t["vid"], t["field"], t["eid"]) for t in it["imported"]] for it in c["items"] if it["kind"] == "fold"]} for c in ir["comps"]]}, cap=3)
+    res.cov["evaluations"] = len(ji)
+    res.cov["distinct_nontrivial"] = nontrivial
+    res.cov["traces_validated_against_impl"] = 0
+    res.cov["rule"] = ("every query of the semantic universe (random + recursion / hint / fold-count families) that the real frontend accepts; TLC evaluates the eight clauses of JudgeIR.tla on the exported IR "
+                       "(edge i -> vertex i+1; every vid/eid in exactly one component and numbered 1..n; folds precede their contents; edges go up; tags resolved before use; imported tags = exactly the outside tags used inside, as sets; "
+                       "variable uses typed compatibly; shape = pre-order numbering of the source AST). distinct non-trivial = distinct IR shapes (components, edge kinds, filter and import counts) with >= 2 vertices")
+    res.notes.update({"rejected_by_frontend": rejected, "distinct_shapes": len(shapes)})
+    return res
+
+# ------------------------------------------------------------------ C12
+def arg_values():
+    big = G.U((1 << 64) - 1)
+    return [G.NULL, G.I(0), G.I(-1), big, G.F2(3), G.S("a"), G.S(""), G.B(True), G.L([]), G.L([G.I(1), G.I(2)]), G.L([G.I(1), G.NULL]), G.L([G.NULL]), G.L([G.S("a")]),
+            G.L([G.L([G.I(1)])]), G.L([G.I(1), G.S("a")]), G.L([G.F2(1)]), G.L([G.B(False)])]
+
+def check_C12(tier, seed):
+    import random
+    res = Result("C12", tier, seed, "model_checking")
+    wd = workdir("C12")
+    rng = random.Random(seed * 7 + 12)
+    insts = universe.semantic_universe(tier, seed + 1200)
+    # keep queries with variables; build argument maps: the valid one, each variable dropped, an extra name, each variable set to each universe value
+    keep = [i for i in insts if i["args"]]
+    keep = keep[: (500 if tier == "quick" else 6000)]
+    vals = arg_values()
+    for inst in keep:
+        base = [[k, v] for k, v in sorted(inst["args"].items())]
+        maps = [base, base + [["zz_extra", G.I(1)]], []]
+        for k in range(len(base)):
+            maps.append(base[:k] + base[k + 1:])
+            maps.append(base[:k] + base[k + 1:] + [["zz_other", G.S("x")]])
+            for v in (vals if tier != "quick" else rng.sample(vals, 8)):
+                maps.append(base[:k] + [[base[k][0], v]] + base[k + 1:])
+        if len(base) >= 2:   # two bad values at once (MultipleErrors)
+            maps.append([[base[0][0], G.L([G.L([G.NULL])])], [base[1][0], G.B(True)]] + base[2:])
+        inst["argmaps"] = maps
+    obs = observe(keep, wd, "argcheck", seed)
+    cases = []; owner = []
+    for inst, o in zip(keep, obs):
+        if o["compile"]["t"] != "ok" or "argcheck" not in o: continue
+        for m, out in zip(inst["argmaps"], o["argcheck"]):
+            if out["t"] == "panic":
+                res.violation(f"argument validation panicked: {out['err'][:200]} for variables {o['ir']['vars']} and arguments {[(a, G.pretty(b)) for a, b in m]}", text=out["err"],
+                              tags=props.inst_tags(inst), replay={"query": inst["text"], "arguments": m}); continue
+            cases.append({"id": len(cases) + 1, "vars": o["ir"]["vars"], "given": m, "outcome": {k: out[k] for k in ("t", "missing", "unused", "badtype")}}); owner.append(inst)
+    nsh = max(1, min(4, len(cases) // 4000))
+    import concurrent.futures as cf
+    def one(s):
+        p = os.path.join(wd, f"args.{s}.ndjson"); write_ndjson(p, cases[s::nsh])
+        return tlc("ArgCheck", "ArgCheck.cfg", {"INST": p}, wd, workers=max(2, NCPU // nsh), timeout=3000)
+    verd = {}
+    with cf.ThreadPoolExecutor(nsh) as ex:
+        for r in ex.map(one, range(nsh)):
+            res.add_tlc(r)
+            for iid, cls, rest in parse_verdicts(r["out"]): verd[iid] = (cls, rest)
+    missing = [c["id"] for c in cases if c["id"] not in verd]
+    if missing: raise ToolError(f"ArgCheck: no verdict for cases {missing[:8]}")
+    acc = rej = 0; kinds = set()
+    for c, inst in zip(cases, owner):
+        cls, rest = verd[c["id"]]
+        if cls == "C12.bad":
+            want = json.loads(tla_unquote(rest))
+            res.violation(f"argument validation disagrees with its definition: variables {[(v[0], v[1]['text']) for v in c['vars']]}, given {[(a, G.pretty(b)) for a, b in c['given']]}: engine {c['outcome']}, specification {want}",
+                          text="argcheck", tags=props.inst_tags(inst), replay={"query": inst["text"], "vars": c["vars"], "given": c["given"], "outcome": c["outcome"], "expected": want})
+        elif cls == "C12.accept": acc += 1
+        else:
+            rej += 1; kinds.add((bool(c["outcome"]["missing"]), bool(c["outcome"]["unused"]), bool(c["outcome"]["badtype"])))
+            if len(res.cov["samples"]) < 3 and c["outcome"]["badtype"]: res.sample({"vars": [(v[0], v[1]["text"]) for v in c["vars"]], "given": [(a, G.pretty(b)) for a, b in c["given"]], "engine": c["outcome"]})
+    res.cov["evaluations"] = len(cases)
+    res.cov["distinct_nontrivial"] = rej
+    res.cov["rule"] = ("for every compiled query with variables in the universe: the valid argument map, the empty map, each variable dropped, an extra name, each variable replaced by each value of a 17-value universe (null, ints of both signs and beyond i64, float, strings, bool, "
+                       "empty / int / null-containing / string / nested / mixed / float / bool lists), and two bad values at once; the real InterpretedQuery::from_query_and_arguments outcome (accept, or the named missing / unused / ill-typed variables) "
+                       "is judged by TLC against ArgCheck.tla (Types!Fits on the query's inferred variable types). distinct non-trivial = rejected maps")
+    res.notes.update({"accepted": acc, "rejected": rej, "rejection_kinds(missing,unused,badtype)": sorted(map(list, kinds))})
+    return res
